@@ -89,21 +89,31 @@ func genElem(r *core.Rand, o XMLOpts, depth int, scope nsScope, id *int) *XNode 
 	for k, v := range scope {
 		inner[k] = v
 	}
+	// innermost maps a URI to the prefix of its innermost declaration in scope (kept in the scope map under "\x00"+uri). The library
+	// (like anything built on the standard decoder, which reports URIs, not lexical prefixes) names a node by the innermost prefix
+	// declared for its URI; where two prefixes are bound to one URI the generator therefore only writes the innermost one.
+	innermost := func(uri string) (string, bool) { p, ok := inner["\x00"+uri]; return p, ok }
+	usable := func() []string {
+		var ps []string
+		for p, uri := range inner {
+			if p == "" || strings.HasPrefix(p, "\x00") {
+				continue
+			}
+			if q, ok := innermost(uri); ok && q == p {
+				ps = append(ps, p)
+			}
+		}
+		sortStrings(ps)
+		return ps
+	}
 	if o.Namespaces {
-		// declare 0..2 namespaces here, keeping "each URI bound to at most one prefix in any scope"
+		// declare 0..2 namespaces here (never two declarations for one prefix or for one URI on the same element)
 		for i := 0; i < 2; i++ {
 			if r.Chance(1, 4) {
 				ns := nsPool[r.Intn(len(nsPool))]
 				dup := false
 				for _, have := range e.NS {
-					if have.Prefix == ns.Prefix {
-						dup = true
-					}
-				}
-				for pfx, uri := range inner {
-					if uri == ns.URI && pfx != ns.Prefix {
-						// two prefixes for one URI in the same scope: the standard decoder does not report lexical prefixes, so which one a
-						// node was written with is not observable - not generated
+					if have.Prefix == ns.Prefix || have.URI == ns.URI {
 						dup = true
 					}
 				}
@@ -112,6 +122,7 @@ func genElem(r *core.Rand, o XMLOpts, depth int, scope nsScope, id *int) *XNode 
 				}
 				e.NS = append(e.NS, ns)
 				inner[ns.Prefix] = ns.URI
+				inner["\x00"+ns.URI] = ns.Prefix
 			}
 		}
 		if depth > 0 && inner[""] != "" && r.Chance(1, 12) {
@@ -128,15 +139,22 @@ func genElem(r *core.Rand, o XMLOpts, depth int, scope nsScope, id *int) *XNode 
 			}
 		}
 		// choose a prefix in scope
-		var prefixes []string
-		for p := range inner {
-			if p != "" {
-				prefixes = append(prefixes, p)
-			}
-		}
-		sortStrings(prefixes)
+		prefixes := usable()
 		if len(prefixes) > 0 && r.Chance(1, 2) {
 			e.Prefix = prefixes[r.Intn(len(prefixes))]
+		}
+		if e.Prefix == "" && inner[""] != "" {
+			if q, _ := innermost(inner[""]); q != "" {
+				// the default namespace's URI has a more recent prefixed declaration: write this element with that prefix if it still
+				// means the same URI, otherwise declare the default namespace again right here
+				if inner[q] == inner[""] {
+					e.Prefix = q
+				} else {
+					// (this element declares neither a default namespace nor that URI itself, or one of the cases above would apply)
+					e.NS = append(e.NS, XNS{"", inner[""]})
+					inner["\x00"+inner[""]] = ""
+				}
+			}
 		}
 		e.URI = inner[e.Prefix]
 	}
@@ -147,13 +165,7 @@ func genElem(r *core.Rand, o XMLOpts, depth int, scope nsScope, id *int) *XNode 
 		for i := 0; i < n; i++ {
 			a := XAttr{Local: []string{"k", "v", "t", "a"}[r.Intn(4)]}
 			if o.Namespaces && r.Chance(1, 4) {
-				var prefixes []string
-				for p := range inner {
-					if p != "" {
-						prefixes = append(prefixes, p)
-					}
-				}
-				sortStrings(prefixes)
+				prefixes := usable()
 				if len(prefixes) > 0 {
 					a.Prefix = prefixes[r.Intn(len(prefixes))]
 				}
